@@ -21,8 +21,10 @@ Check c09_caller_writes_do_not_matter :
   forall ops buf tr,
     map snd (filter (from_read packet) (conv packet parse ver_of is_keepalive version m verify pong ops buf tr))
     = session packet parse ver_of is_keepalive version m verify pong (reads ops) buf tr.
+Check c09_model_state_is_the_struct : state_tied = true.
 Print Assumptions c09_rejects_iff.
 Print Assumptions c09_delivers_otherwise.
 Print Assumptions c09_version_is_9.
 Print Assumptions c09_expected_frame_is_gate.
 Print Assumptions c09_caller_writes_do_not_matter.
+Print Assumptions c09_model_state_is_the_struct.
